@@ -406,6 +406,17 @@ class Check:
         self.proof = pr
         for b in pr.broken:
             self.broken.append(f"proof: {b}")
+        if self.tier == "thorough" and pr.ok:
+            # independent re-check of the compiled property file and everything it depends on
+            rc, out = sh(["timeout", "1500", "coqchk", "-silent", "-o", "-Q", str(COQ), "V", f"V.Props.{self.pid}"], timeout=1600)
+            m = re.search(r"\* Axioms:(.*?)\n\s*\n\* Constants/Inductives relying on type-in-type:(.*?)\n\s*\n\* Constants/Inductives relying on unsafe \(co\)fixpoints:(.*?)\n\s*\n\* Inductives whose positivity is assumed:(.*?)\n", out + "\n", re.S)
+            summary = {"exit": rc}
+            if m:
+                summary.update({"axioms": " ".join(m.group(1).split()), "type_in_type": " ".join(m.group(2).split()),
+                                "unsafe_fixpoints": " ".join(m.group(3).split()), "assumed_positivity": " ".join(m.group(4).split())})
+            self.coverage["coqchk"] = summary
+            if rc != 0 or not m or any(summary[k] != "<none>" for k in ("type_in_type", "unsafe_fixpoints", "assumed_positivity")):
+                self.broken.append(f"proof: coqchk does not accept Props/{self.pid}.vo: {out[-300:]}")
         return pr
 
     # -- correspondence
